@@ -44,6 +44,11 @@ type Compiler struct {
 
 	// Source filename
 	filename string
+
+	// Position of the template string being compiled, if any. The expressions
+	// of a template are parsed on their own, so the positions of their tokens
+	// are relative to the expression and not to the source file.
+	templatePos *token.Position
 }
 
 // Option is a configuration function for a Compiler.
@@ -833,6 +838,13 @@ func (c *Compiler) compileString(node *ast.String) error {
 
 	var expressionIndex int
 	expressions := node.TemplateExpressions()
+
+	// Errors in the expressions are reported at the (outermost) template string
+	if c.templatePos == nil {
+		pos := node.Token().StartPosition
+		c.templatePos = &pos
+		defer func() { c.templatePos = nil }()
+	}
 
 	// Emit code that pushes each fragment of the string onto the stack
 	for _, f := range fragments {
@@ -2143,6 +2155,9 @@ func normalizeFunctionBlock(node *ast.Block) []ast.Node {
 
 // formatError creates a detailed error message including file, line and column information
 func (c *Compiler) formatError(msg string, pos token.Position) error {
+	if c.templatePos != nil {
+		pos = *c.templatePos
+	}
 	lineCol := fmt.Sprintf("line %d, column %d", pos.LineNumber(), pos.ColumnNumber())
 	filename := c.filename
 	if filename == "" {
